@@ -608,6 +608,34 @@ theorem C11_non_interference_run {E : Env} {f : Nat} {tpl : Bytes} {te names exp
     (h : renderNode E (run E f) tpl (.include te names exprs im only sb) st = .ok (out, st')) :
     st'.ctx = st.ctx := C11_non_interference h
 
+/-! ## an included template that extends a layout: the layout reads what the included template reads -/
+
+/-- the context an `extends` node hands to its parent template answers every variable lookup exactly as the
+    extending template's own context does — its own variables and, when the extending template was itself
+    included, every variable of the including templates (defect fixed in /repo: the chain was dropped) -/
+theorem C11_extends_keeps_visibility (E : Env) (c : Ctx) (k : Bytes) :
+    let pc : Ctx := { freshCtx c.vars (E.F.propExtends && c.sandboxed) c.inside with
+                        blockDefs := c.blockDefs, parents := c.parents }
+    pc.getVar k = c.getVar k ∧ pc.hasVar k = c.hasVar k := ⟨rfl, rfl⟩
+
+/-- …and that context is the one the parent's root is rendered in -/
+theorem C11_extends_hands_over {E : Env} {go : Go} {tpl : Bytes} {e : Expr} {st : St} {v fl} {name : Bytes} {T' : List Node}
+    {out : Bytes} {st' : St}
+    (h1 : evalX E true e st = .ok ((v, fl), st)) (h2 : toStr v = .ok name)
+    (hrel : isRelative name = false) (ht : E.tpl? name = some T')
+    (h : renderNode E go tpl (.extends e) st = .ok (out, st')) :
+    ∃ st2, go (.root name) { st with ctx := { freshCtx st.ctx.vars (E.F.propExtends && st.ctx.sandboxed) st.ctx.inside with
+                        blockDefs := st.ctx.blockDefs, parents := st.ctx.parents } } = .ok (out, st2) ∧ st'.ctx = st.ctx := by
+  simp only [renderNode, h1, ok_bind, h2, hrel, ht, Bool.false_eq_true, if_false] at h
+  cases hg : go (.root name) { st with ctx := { freshCtx st.ctx.vars (E.F.propExtends && st.ctx.sandboxed) st.ctx.inside with
+                        blockDefs := st.ctx.blockDefs, parents := st.ctx.parents } } with
+  | error err => rw [hg] at h; cases h
+  | ok r =>
+    rw [hg] at h
+    obtain ⟨o, s2⟩ := r
+    cases h
+    exact ⟨s2, rfl, rfl⟩
+
 /-! ## non-vacuity: whole-pipeline instances -/
 
 /-- render template `main` of an environment given as syntax trees: output, or the reason for `unsupported`,
@@ -618,6 +646,10 @@ def renderDemoAst (E : Env) (vars : List (Bytes × Val)) : Option (Bytes ⊕ Str
   | .error (.unsupported w) => some (.inr w)
   | .error _ => none
 
+-- an included template that extends a layout: layout and overriding block read the includer's variables
+example : renderDemo "{% set w = 'W' %}{% include 'part' %}|{% include 'part' with {'w': 'X'} %}|{% include 'part' only %}" []
+    [("part", "{% extends 'layout' %}{% block b %}c{{ w }}{% endblock %}"), ("layout", "L[{% block b %}{% endblock %}{{ w }}]")]
+    = some (b "L[cWW]|L[cXX]|L[c]") := by decide +kernel
 -- `with` adds (b) and overrides (a) for the included template only; its sets (a, c) do not come back
 example : renderDemo "{% set a = 1 %}{% include 'x' with {'a': 2, 'b': 3} %}|{{ a }}{{ b }}{{ c }}|" []
     [("x", "{{ a }}{{ b }}{% set a = 9 %}{% set c = 4 %}{{ a }}{{ c }}")] = some (b "2394|1|") := by decide +kernel
